@@ -165,12 +165,12 @@ theorem probe_end_activates_records (intfName : BList) (acc : Registry × List E
     query for `n` leaves on `i` in this iteration exactly if `now ≥ nx` - on every family of the
     interface, a query packet with `ANY n` among the questions and all of `R` among the
     authorities - and then `nx` becomes `now + 250`; otherwise the probe is as before. -/
-theorem probe_query_in_daemon (s : State) (i : MyIntf) (l1 l2 : List MyIntf) (n : BList) (st nx : Nat) (R : List RR) (now j : Nat)
+theorem probe_query_in_daemon (s : State) (i : MyIntf) (l1 l2 : List MyIntf) (n : BList) (st nx : Nat) (R : Cargo) (now j : Nat)
     (h : Good s i l1 l2 n st nx R) (hlive : now < nx ∨ now < st + 750) :
     Good (iter s (idle now j)).1 i l1 l2 n st (if now ≥ nx then now + 250 else nx) R ∧
     (now < nx → asked i.index n (iter s (idle now j)).2 = false) ∧
     (now ≥ nx → ∀ v4, i.hasFamily v4 = true → ∃ pkt, Out.send i.index v4 none pkt ∈ (iter s (idle now j)).2 ∧
-      pkt.flags = 0 ∧ (n, TYPE_ANY) ∈ pkt.questions ∧ ∀ a ∈ R, a ∈ pkt.authorities) :=
+      pkt.flags = 0 ∧ (n, TYPE_ANY) ∈ pkt.questions ∧ ∀ a ∈ R.recs, a ∈ pkt.authorities) :=
   iter_idle_step s i l1 l2 n st nx R now j h hlive
 
 /-- PROBE LIFE CYCLE IN THE DAEMON, timely scheduler, no conflict, for ANY state as above in
@@ -179,14 +179,14 @@ theorem probe_query_in_daemon (s : State) (i : MyIntf) (l1 l2 : List MyIntf) (n 
     (`pre0 … pre3`), the iterations in which a probe query for `n` leaves on `i` are exactly those
     at `T`, `T+250` and `T+500` - none before, none in between, none at `T+750` - and after the
     iteration at `T+750` every record of the probe (filed under `n`) is active on `i`. -/
-theorem probe_schedule_in_daemon (s : State) (i : MyIntf) (l1 l2 : List MyIntf) (n : BList) (T : Nat) (R : List RR) (j : Nat)
+theorem probe_schedule_in_daemon (s : State) (i : MyIntf) (l1 l2 : List MyIntf) (n : BList) (T : Nat) (R : Cargo) (j : Nat)
     (h : Good s i l1 l2 n T T R) (hfam : ∃ v4, i.hasFamily v4 = true)
     (pre0 pre1 pre2 pre3 : List Nat)
     (h0 : ∀ t ∈ pre0, t < T) (h1 : ∀ t ∈ pre1, t < T + 250) (h2 : ∀ t ∈ pre2, t < T + 500) (h3 : ∀ t ∈ pre3, t < T + 750) :
     askTimes i.index n
       (idleRun j s ((pre0 ++ [T]) ++ ((pre1 ++ [T + 250]) ++ ((pre2 ++ [T + 500]) ++ (pre3 ++ [T + 750]))))).2 =
       [T, T + 250, T + 500] ∧
-    ∀ a ∈ R, a.getName = n →
+    ∀ a ∈ R.recs, a.getName = n →
       ((idleRun j s ((pre0 ++ [T]) ++ ((pre1 ++ [T + 250]) ++ ((pre2 ++ [T + 500]) ++ (pre3 ++ [T + 750]))))).1.registry
         i.index).isActive a = true := by
   obtain ⟨g1, a1⟩ := idleRun_phase j i l1 l2 n T T R s pre0 h (by omega) hfam h0
@@ -217,7 +217,7 @@ theorem registration_starts_probe (s : State) (i : MyIntf) (l1 l2 : List MyIntf)
     (hinactive : (s.registry i.index).isActive a = false) (hfresh : alookup n (s.registry i.index).probing = none) :
     ∃ b, a.matchesRR b = true ∧ b.getName = n ∧
       Good (iter s { now := now, jitter := j, cmds := [.register svc] }).1 i l1 l2 n (now + j)
-        (if j = 0 then now + 250 else now + j) [b] ∧
+        (if j = 0 then now + 250 else now + j) ⟨[b], [svc.fullname], alookup n (s.registry i.index).active⟩ ∧
       (j ≠ 0 → asked i.index n (iter s { now := now, jitter := j, cmds := [.register svc] }).2 = false) ∧
       (j = 0 → ∀ v4', i.hasFamily v4' = true →
         ∃ pkt, Out.send i.index v4' none pkt ∈ (iter s { now := now, jitter := j, cmds := [.register svc] }).2 ∧
@@ -254,7 +254,7 @@ theorem registration_probe_lifecycle (s : State) (i : MyIntf) (l1 l2 : List MyIn
   obtain ⟨b, hm, hbn, hg, hno, _⟩ := registration_creates_probe s i l1 l2 svc t0 j v4 a n hrun hi hok hpn hnr hlen hauto hprobe
     hne ha hname hinactive hfresh
   simp only [hj, ↓reduceIte] at hg
-  obtain ⟨hask, hact⟩ := probe_schedule_in_daemon _ i l1 l2 n (t0 + j) [b] j hg hfam pre0 pre1 pre2 pre3 h0 h1 h2 h3
+  obtain ⟨hask, hact⟩ := probe_schedule_in_daemon _ i l1 l2 n (t0 + j) ⟨[b], [svc.fullname], alookup n (s.registry i.index).active⟩ j hg hfam pre0 pre1 pre2 pre3 h0 h1 h2 h3
   refine ⟨hno hj, hask, ?_⟩
   exact isActive_of_matches _ a b hm (hname.trans hbn.symm) (hact b (by simp) hbn)
 
@@ -447,10 +447,10 @@ def probingRegistry : Registry :=
 
 theorem probingState_registry : probingState.registry 2 = probingRegistry := by decide +kernel
 
-example : Good probingState eth0 [] [] web.fullname 1000007 1000007 [webTxt, webSrv] := by
-  refine ⟨by decide +kernel, ⟨by decide +kernel, by simp⟩, ⟨?_, ?_, ?_⟩, ?_⟩
+example : Good probingState eth0 [] [] web.fullname 1000007 1000007 ⟨[webTxt, webSrv], [web.fullname], none⟩ := by
+  refine ⟨by decide +kernel, ⟨by decide +kernel, by simp⟩, ⟨?_, ?_, ?_, ?_⟩, ?_⟩
   · exact ⟨{ records := [webTxt, webSrv], waiting := [web.fullname], start := 1000007, next := 1000007 },
-      by rw [show eth0.index = 2 from rfl, probingState_registry]; decide, rfl, rfl, fun a h => h⟩
+      by rw [show eth0.index = 2 from rfl, probingState_registry]; decide, rfl, rfl, fun a h => h, fun w h => h⟩
   · rw [show eth0.index = 2 from rfl, probingState_registry]
     unfold KeysNodup
     decide
@@ -463,6 +463,7 @@ example : Good probingState eth0 [] [] web.fullname 1000007 1000007 [webTxt, web
       rcases ha with rfl | rfl <;> rfl
     · simp only [List.mem_cons, List.not_mem_nil, or_false] at ha
       subst ha; rfl
+  · rw [show eth0.index = 2 from rfl, probingState_registry]; rfl
   · intro t p k v hm
     have : probingState.reruns = [] := by decide +kernel
     rw [this] at hm
